@@ -197,12 +197,14 @@ Print Assumptions offset_word.
 Print Assumptions rate_word.
 Print Assumptions proxy_buffers_safe.
 Print Assumptions time_safe.
-Print Assumptions ing_rewrite_fixed_safe.
+Print Assumptions ing_rewrite_safe.
+Print Assumptions ing_rewrite_then_semi.
+Print Assumptions limit_req_key_bare_safe.
+Print Assumptions ing_rate_word.
+Print Assumptions http_header_name_word.
 Print Assumptions grpc_service_fixed_safe.
 Print Assumptions ts_hash_fixed_safe.
 Print Assumptions sticky_fixed_safe.
-Print Assumptions ing_rewrite_refuted.
-Print Assumptions ing_rewrite_not_safe.
 Print Assumptions ing_path_refuted.
 Print Assumptions ing_path_refuted_bs.
 Print Assumptions ing_path_not_safe.
